@@ -1078,7 +1078,12 @@ EVIDENCE_NOTES += [
     "no generated input reaches the difference (checked: seeded C10-4 now breaks gen_qrec_pre_matches_model; 51 hand-made semantic "
     "edits, one or more per segment); loop rotation, for <-> while <-> do, guard clauses, helper extraction (swap through pointers, "
     "release helpers), hoisted / renamed locals, >> 1 for / 2, swapped comparator arguments, memcpy for the copy-back keep them "
-    "(refactored/C10-A..D and 10 more rewrites stay quiet).  NOT in the translator tie: the tail loops / block copies of the merge "
+    "(refactored/C10-A..F and 10 more rewrites stay quiet; E / F needed: helpers that contain a loop spliced into the caller "
+    "before the cuts are made, helpers writing a caller's local through a pointer, loops driven by a helper that returns a "
+    "continue flag, pointer-walk loop variables as indices, state vectors ordered by DECLARATION not by first use, parameter copies "
+    "as aliases).  The merge iteration is tied ONLY while both runs have elements (l <= center, r <= right, idx <= right): that is "
+    "what the three-loop and the fused one-loop form share; the exit condition of the merge loop is no longer tied.  NOT in the "
+    "translator tie: the tail loops / block copies of the merge "
     "(after the comparing loop), muggle_heap_ensure_capacity's body and muggle_heap_init (allocation + copy; the call and its "
     "argument are tied), the free-callback invocations themselves (ignored by the slicer; differential run + monitor), loops moved "
     "into a helper function (reported as a broken obligation: no-failing-input-found).  The model-side link (model_*_is_*_step) is "
